@@ -11,6 +11,33 @@ def okItems (o : Option (List (List Nat))) : String :=
 
 def isPrefixOf {α} [BEq α] (p l : List α) : Bool := p.length ≤ l.length && l.take p.length == p
 
+/-- specification-level reading of a LEB128 number: all continuation bytes, unbounded -/
+def rawVarint : List Nat → Nat → Nat → Option (Nat × Nat)
+  | [], _, _ => none
+  | b :: rest, sh, acc => if b < 128 then some (acc + b * 2 ^ sh, 1) else
+      match rawVarint rest (sh + 7) (acc + (b % 128) * 2 ^ sh) with
+      | some (v, n) => some (v, n + 1)
+      | none => none
+
+/-- why a stream must be rejected according to the property's own words (independent of the model decoder):
+    a cut varint, a varint of 2^32 or more, or a prefix exceeding the remaining bytes, at any item boundary -/
+def mustReject : Nat → List Nat → Option String
+  | 0, _ => none
+  | fuel + 1, data =>
+    if data.isEmpty then none else
+    match rawVarint data 0 0 with
+    | none => some "truncated_rejected"
+    | some (v, n) =>
+      if v ≥ 2 ^ 32 then some "varint_overflow_rejected"
+      else if data.length < n + v then some "overlong_prefix_rejected"
+      else mustReject fuel (data.drop (n + v))
+
+def rejectMonitor (single : Bool) (b : List Nat) (impl : String) : List String :=
+  if impl == "err" then [] else
+  match mustReject (if single then 1 else b.length + 1) b with
+  | some c => [c]
+  | none => []
+
 def step (toks : List String) (impl : String) : Res :=
   match toks with
   | ["enc", items] =>
@@ -19,12 +46,12 @@ def step (toks : List String) (impl : String) : Res :=
   | ["dec", bs] =>
     let b := parseBytes bs
     let r := decContents b
-    { model := okItems r, tags := ["dec", if r.isSome then "dec-ok" else "dec-err"], nontrivial := b.length > 1 }
+    { model := okItems r, monitor := rejectMonitor false b impl, tags := ["dec", if r.isSome then "dec-ok" else "dec-err"], nontrivial := b.length > 1 }
   | ["dec1", bs] =>
     let b := parseBytes bs
     match decSingle b with
-    | some (c, rest) => { model := "ok " ++ canon c ++ " " ++ canon rest, tags := ["dec1", "dec1-ok"] }
-    | none => { model := "err", tags := ["dec1", "dec1-err"] }
+    | some (c, rest) => { model := "ok " ++ canon c ++ " " ++ canon rest, monitor := rejectMonitor true b impl, tags := ["dec1", "dec1-ok"] }
+    | none => { model := "err", monitor := rejectMonitor true b impl, tags := ["dec1", "dec1-err"] }
   | ["rt", items] =>
     -- implementation-side round trip: Go decodeContents(encodeContents xs) == xs
     let xs := parseItems items
